@@ -338,7 +338,12 @@ def plainItems (W : World) (rec : PlainRec) (env : Env) :
         | none => (.error (.dds .objectNotFound), st)
         | some g => match bindRun g.params (zipArgs results env args rtA) (zipKw results env kwargs rtK) 0 with
           | none => (.error (.exc "TypeError" f), st)
-          | some env' => rec st g env'
+          | some env' =>
+            match rec st g env' with
+            | (.ok v, st') => (.ok v, match g.storePath with
+                | some p => { st' with kept := aset st'.kept p v }
+                | none => st')
+            | r => r
       | .keep path f args kwargs rtA rtK _ =>
         match W.find f with
         | none => (.error (.dds .objectNotFound), st)
